@@ -206,4 +206,33 @@ theorem c12_limit_neutral (obj : Json) (v : Val) (ps : List Val) :
 example : eql (.json (.int 1234567)) (.json (.flt ⟨1234567, 0⟩)) = true := by
   rw [c12_eq_integral _ _ 1234567 1234567 rfl rfl]; rfl
 
+/-- **No ordering holds of a NaN**: a string that spells `nan` (any case) on either side of `>`, `<`, `>=`, `<=` makes
+    the comparison false against every scalar - whatever relation the operator stands for. -/
+theorem c12_nan_unordered (rel : Dec → Dec → Bool) (s : String) (hs : nanJson (.str s) = true) (y : Json)
+    (hy : ∀ ys, y ≠ .arr ys) :
+    ordOp rel (.json (.str s)) (.json y) = false ∧ ordOp rel (.json y) (.json (.str s)) = false := by
+  constructor
+  · unfold ordOp
+    cases y <;> simp_all [nanVal]
+  · unfold ordOp
+    cases y <;> simp_all [nanVal]
+
+/-- ... and against every element of a list: no element of the list is ordered with it -/
+theorem c12_nan_unordered_list (rel : Dec → Dec → Bool) (s : String) (hs : nanJson (.str s) = true) (ys : List Json) :
+    ordOp rel (.json (.str s)) (.json (.arr ys)) = false ∧ ordOp rel (.json (.arr ys)) (.json (.str s)) = false := by
+  constructor
+  · unfold ordOp
+    simp [nanVal, hs]
+  · unfold ordOp
+    simp [nanVal, hs]
+
+/-- not vacuous: the spellings ParseFloat reads as NaN, and two it does not -/
+example : nanJson (.str "NaN") = true ∧ nanJson (.str "nan") = true ∧ nanJson (.str "NAN") = true ∧
+    nanJson (.str "+nan") = false ∧ nanJson (.str "nanx") = false := by decide
+
+/-- an infinity orders beyond every number of either sign the generators know -/
+example : gtr (.json (.str "Infinity")) (.json (.int 9223372036854775807)) = true ∧
+    lss (.json (.str "-inf")) (.json (.int (-9223372036854775808))) = true ∧
+    geq (.json (.str "Infinit")) (.json (.int 1)) = false := by decide
+
 end KsVerif.Proofs.C12
